@@ -182,8 +182,11 @@ impl BlteFile {
                 .iter()
                 .map(|info| u64::from(info.decompressed_size))
                 .sum();
-            // Saturate to usize max to handle potential overflow gracefully
-            return usize::try_from(total).unwrap_or(usize::MAX);
+            // The table is not trusted and this is only a pre-allocation hint:
+            // never reserve more than the decompression limit up front.
+            return usize::try_from(total)
+                .unwrap_or(usize::MAX)
+                .min(compression::MAX_DECOMPRESSION_SIZE);
         }
 
         // Fall back to chunk-level estimates
